@@ -164,6 +164,11 @@ func ruleCouple(c *Ctx, pkgs map[string]bool) *RuleResult {
 		if p == nil || !pkgs[p.Pkg.Path()] || fn.Synthetic != "" {
 			continue
 		}
+		// the obligation is on operations visible from outside: an unexported helper that only
+		// touches the adjacency array is judged at the call sites inside exported functions
+		if fn.Parent() != nil || fn.Object() == nil || !fn.Object().Exported() {
+			continue
+		}
 		f := E.fas[fn]
 		type site struct {
 			in  ssa.Instruction
@@ -188,7 +193,9 @@ func ruleCouple(c *Ctx, pkgs map[string]bool) *RuleResult {
 				if call, ok := in.(*ssa.Call); ok {
 					if cal := call.Call.StaticCallee(); cal != nil && c.inModule(cal) {
 						cp := fnPkg(cal)
-						if cp != nil && cp.Pkg.Path() == c.Mod+"/graph" {
+						// an exported operation of the graph package keeps its own books; an unexported
+						// helper is part of the caller's operation
+						if cp != nil && cp.Pkg.Path() == c.Mod+"/graph" && cal.Object() != nil && cal.Object().Exported() {
 							direct = false
 						}
 					}
@@ -373,6 +380,37 @@ func ruleEdgeSign(c *Ctx, r *RuleResult, fnName string, add bool) {
 					}
 				}
 			case *ssa.Call:
+				if cal := x.Call.StaticCallee(); cal != nil && c.inModule(cal) && (cal.Object() == nil || !cal.Object().Exported()) {
+					// an unexported helper that writes the adjacency storage on behalf of this method
+					writesAdj := false
+					for l := range c.Eff().fas[fn].iw[x] {
+						if l.o.root == 0 && c.Eff().catOfLoc(c, l)&catAdj != 0 {
+							writesAdj = true
+						}
+					}
+					if writesAdj {
+						adjN += 2
+						want := int64(0)
+						if add {
+							want = 1
+						}
+						seenWant, seenOther := false, false
+						for _, a := range x.Call.Args {
+							if k, ok := constInt(a); ok && isByte(a.Type()) {
+								if k == want {
+									seenWant = true
+								} else {
+									seenOther = true
+								}
+							}
+						}
+						if seenOther && !seenWant {
+							okSigns = false
+							r.find(fnName+":adjacency byte", c.instrPos(x), "%s passes the wrong adjacency value to %s; it must store %d", fnName, c.short(cal), want)
+						}
+						continue
+					}
+				}
 				if cal := x.Call.StaticCallee(); cal != nil && len(x.Call.Args) > 0 {
 					field, _ := fieldOf(x.Call.Args[0])
 					if field == "Neighbourhoods" {
